@@ -8,17 +8,19 @@ from harness.core import ok, fail, skip
 from harness.worker import Stream
 
 OBLIGATIONS = [
-    "PgmVerif.C08_saturate_closed", "PgmVerif.C08_saturate_sound", "PgmVerif.C08_reach_exact",
+    "PgmVerif.C08_saturate_closed", "PgmVerif.C08_saturate_sound", "PgmVerif.C08_reach_exact", "PgmVerif.C08_reach_iff_active_trail",
     "PgmVerif.C08_ancestors_exact", "PgmVerif.C08_blanket_spec",
 ]
-PARTIAL = ["reachability-rules = active-trail definition is decided exhaustively (all DAGs <= 4 nodes quick, 5 nodes thorough) and on random "
-           "DAGs against the path-enumeration spec of the Lean model, not yet by a theorem",
+PARTIAL = ["the theorem is stated on trails (nodes may repeat, Koller-Friedman); the equivalent simple-path form used by the executable "
+           "path-enumeration spec is confirmed exhaustively (all DAGs <= 4 nodes quick, 5 nodes thorough), not proved",
            "minimality / existence of the returned separator: checked per case against the spec"]
 RULE = ("exhaustive: every labelled DAG on <=4 nodes x every observed subset x every start node (x name kinds / observed container kinds); "
         "random DAGs to 7 nodes with latents; non-trivial = graph has an edge; distinct = case JSON")
 ASSUMPTIONS = ["networkx predecessors/successors are adjacency look-ups"]
 BUDGET_QUICK = 80
-LEVEL_TEXT = ("Kernel-checked: the fuel-bounded saturation used by the model of active_trail_nodes / _get_ancestors_of returns exactly the least "
+LEVEL_TEXT = ("Kernel-checked: C08_reach_iff_active_trail - for every acyclic graph, observed set and unobserved start node, a (node, direction) "
+              "state is reached by the traversal of active_trail_nodes iff an active trail in the textbook sense (every interior non-collider "
+              "unobserved, every interior collider an ancestor-or-self of an observed node) ends there. Also: the fuel-bounded saturation used by the model of active_trail_nodes / _get_ancestors_of returns exactly the least "
               "set closed under the four (node, direction) rules (closed + sound for any step function; fuel bound proved), ancestors are "
               "exactly the reflexive-transitive parents closure, Markov blanket is parents+children+co-parents. The equivalence of the rule "
               "system with the path definition (every non-collider unobserved, every collider with an observed descendant-or-self) is decided "
